@@ -6,43 +6,56 @@
 From DD Require Export Base.Py.
 
 Inductive usage_error :=
-| InputNotRegular | NoCommand | CommandNotRegular | CommandNotExecutable.
+| InputNotRegular | OutputIsInput | NoCommand | CommandNotRegular | CommandNotExecutable
+| CrossCheckNotRegular | CrossCheckNotExecutable | JobsBelowOne.
 
 Inductive outcome :=
 | Completed                         (* minimisation ran to completion (also: nothing could be minimised) *)
 | ParserTest                        (* --parser-test: parse, print, exit 0 *)
 | Usage (e : usage_error)           (* DDSMTException raised by check_options *)
+| CommandCannotRun                  (* the system cannot execute the (cross-check) command: logging.error + sys.exit(1) *)
 | MatchStringMissing                (* golden output lacks a configured match string: logging.error + sys.exit(1) *)
 | Interrupted                       (* KeyboardInterrupt *)
 | OutOfMemory                       (* MemoryError *)
 | InternalError (k : exn).          (* any other exception: traceback *)
 
-(* what check_options sees *)
+(* what check_options and the golden runs see *)
 Record invocation := mk_inv {
-  in_regular : bool; parser_test : bool; has_cmd : bool; cmd_regular : bool; cmd_exec : bool;
+  in_regular : bool;
+  out_is_in : bool;                 (* the output file exists and is the input file *)
+  parser_test : bool; has_cmd : bool; cmd_regular : bool; cmd_exec : bool;
+  has_cc : bool; cc_regular : bool; cc_exec : bool;     (* cross-check command *)
+  jobs_ok : bool;                   (* -j >= 1 *)
+  cmd_runs : bool; cc_runs : bool;  (* the system can execute the file (valid executable format) *)
   golden_has_match : bool;          (* every configured match string occurs in the golden run *)
   interrupted : bool;               (* SIGINT delivered during the run *)
   internal : option exn }.          (* an exception escaping the strategies *)
 
 Definition run_cli (i : invocation) : outcome :=
   if negb (in_regular i) then Usage InputNotRegular
+  else if out_is_in i then Usage OutputIsInput
   else if parser_test i then ParserTest
   else if negb (has_cmd i) then Usage NoCommand
   else if negb (cmd_regular i) then Usage CommandNotRegular
   else if negb (cmd_exec i) then Usage CommandNotExecutable
+  else if has_cc i && negb (cc_regular i) then Usage CrossCheckNotRegular
+  else if has_cc i && negb (cc_exec i) then Usage CrossCheckNotExecutable
+  else if negb (jobs_ok i) then Usage JobsBelowOne
+  else if negb (cmd_runs i) then CommandCannotRun
   else if negb (golden_has_match i) then MatchStringMissing
+  else if has_cc i && negb (cc_runs i) then CommandCannotRun
   else if interrupted i then Interrupted
   else match internal i with Some k => InternalError k | None => Completed end.
 
 (* __main__.main: return value, and bin/ddsmt / python -m ddsmt: sys.exit(main()) *)
 Definition exit_status (o : outcome) : Z :=
   match o with Completed | ParserTest => 0 | _ => 1 end%Z.
-(* lines printed by main() itself (the one-line diagnostic) *)
+(* lines printed as the one-line diagnostic *)
 Definition diagnostic_lines (o : outcome) : nat :=
   match o with
   | Completed | ParserTest => 0
   | Usage _ | Interrupted | OutOfMemory => 1
-  | MatchStringMissing => 1          (* logging.error *)
+  | MatchStringMissing | CommandCannotRun => 1          (* logging.error *)
   | InternalError _ => 0             (* traceback: an internal failure, not a diagnostic *)
   end.
 
